@@ -65,7 +65,7 @@ class Monitor:
     def __init__(self, names: List[str], inv, roles: Dict[str, Tuple[List[str], bool]]):
         self.drawers: Dict[Any, str] = {}
         for (_, f, c) in inv.rng:
-            if c.split(".")[-1] != "seed":
+            if c.split(".")[-1] not in ("seed", "getstate", "setstate", "get_state", "set_state"):   # a draw (not seeding, not the F-11 save / restore)
                 code = _code_of(f)
                 if code is not None:
                     self.drawers[code] = f
